@@ -30,6 +30,9 @@ pub enum Mut {
     ScalarPlusL(SPos),
     PointIdentity(PPos),
     PointUndecodable(PPos),
+    /// flip bit 255 of the point's encoding (a canonical Ristretto encoding never has it set: the result is another byte
+    /// string, which either does not decode or is another element)
+    PointTopBit(PPos),
     PointPlusH(PPos),
     PointCopy(PPos, PPos),
     SwapLR(usize),
@@ -125,6 +128,7 @@ pub fn menu(p: &RefProof, reduced: bool) -> Vec<Mut> {
     for q in &pp {
         out.push(Mut::PointIdentity(q.clone()));
         out.push(Mut::PointUndecodable(q.clone()));
+        out.push(Mut::PointTopBit(q.clone()));
         out.push(Mut::PointPlusH(q.clone()));
         let other = pp.iter().find(|o| *o != q && pget(p, o) != pget(p, q));
         if let Some(o) = other {
@@ -210,6 +214,11 @@ pub fn apply<P: G>(p: &RefProof, m: &Mut, h: &P) -> Option<Vec<u8>> {
         },
         Mut::PointIdentity(pos) => pset(&mut q, pos, [0u8; 32]),
         Mut::PointUndecodable(pos) => pset(&mut q, pos, UNDECODABLE),
+        Mut::PointTopBit(pos) => {
+            let mut v = pget(&q, pos);
+            v[31] ^= 0x80;
+            pset(&mut q, pos, v)
+        },
         Mut::PointPlusH(pos) => {
             let pt = P::g_decompress(&pget(&q, pos))?;
             pset(&mut q, pos, pt.g_add(h).g_compress())
